@@ -99,6 +99,14 @@ Theorem C13_divider_needle_never_straddles : forall salt t r, salt_plain salt ->
   (0 < length t)%nat -> (length t < length (needle salt))%nat -> starts (needle salt) (t ++ needle salt ++ r) = false.
 Proof. intros salt t r H. exact (needle_no_overlap salt H t r). Qed.
 Check payload_ok_salted : forall salt pc, payload_ok pc -> payload_salted salt pc.      (* the former premise implies the new one *)
+(* the premise that is left is needed: a payload that prints the needle of this very execution (it would have to guess 20 random
+   alphanumeric characters) followed by an index and a code is taken for a divider -- here the split reports an error
+   (index 1 where 0 is expected) *)
+Example C13_divider_needle_premise_needed :
+  let salt := [115%N] in
+  let forged := PREFIX ++ salt ++ COLONS ++ [49%N] ++ COLONS ++ [48%N; 10%N] in           (* ~~~~~~~~EXECDIVIDER::s::1::0 *)
+  ~ payload_salted salt (forged, 0%Z) /\ split_outputs salt (ideal salt 0 [(forged, 0%Z)]) = None.
+Proof. cbv zeta. split; [intros [H _]; vm_compute in H; discriminate|vm_compute; reflexivity]. Qed.
 Print Assumptions C13_divider_split_salted.
 Print Assumptions C13_divider_needle_never_straddles.
 Example C13_divider_instance :          (* two test cases: "a\nb" without final newline and exit code 3, then nothing and 0 *)
